@@ -9,6 +9,20 @@ PROPS = {
             "a Go map value satisfies wf (unique keys); the harness hands trees to Coq with keys sorted",
         ],
     },
+    "C01": {
+        "harness": [{"name": "c01"}],
+        "n_quick": 240, "n_thorough": 6000,
+        "known_for": ["C01"],
+        "scope_guards": ["C01_transparency composition theorem not yet proved for any fragment of the language; proved for every input: plan_sub (no field invented); refuted: 5 witnesses"],
+        "assumptions": ["downstream services are spec-conformant executors over their own schema (simulators, checked against Gql/RefExec.v per request)",
+                        "gqlparser's validation of client queries is taken as given (only validated operations are emitted)"],
+    },
+    "C04": {
+        "harness": [{"name": "c01"}],
+        "n_quick": 240, "n_thorough": 6000,
+        "known_for": ["C01"],
+        "assumptions": ["validity of a received document is judged by gqlparser's validator at the simulator (direct oracle) and by valid_doc in the model"],
+    },
 }
 
 # ---- manifest texts ------------------------------------------------------------------------------------
@@ -18,6 +32,16 @@ META = {
         "text": "Theorems C18_roundtrip and C18_union (all permission trees with unique keys, all finite families, all paths; structural induction, no bound) over the Gallina model of auth.go's MarshalJSON/UnmarshalJSON/MergeAllowedFields; the model is tied to /repo on every run by evaluating it on random trees, JSON inputs (incl. malformed) and families and comparing with what the real exported API returned; the property is also evaluated directly on the observed outputs.",
         "note": "Trusted: Coq kernel + vm_compute; the hand model's reading of encoding/json's decode-over-existing-value; the Go harness and driver. No axioms. FilterSchema/filterFields agreement (third clause) is checked in C03/C17's schema-level checks, theorem pending.",
         "technique": "Coq proof (nested induction on permission trees) + differential correspondence check model vs exported Go API",
+    },
+    "C01": {
+        "text": "Gallina model of the whole request path (skip/include rewrite, permission filter, planner, step execution, result merge, null propagation, response writer: coq/Model/*.v) composed as Model/Gateway.v and compared with a reference executor written from the GraphQL spec (Gql/RefExec.v). Proved for every schema/table/selection: plan_sub (the planner invents no field). The full transparency statement is refuted by five vm_compute witnesses (kept in Properties/C01.v), each a recorded known finding. On every run the model is tied to /repo: random federated queries run through the real gateway over simulated services; the model must reproduce every downstream request and the response bytes, the simulators must equal RefExec, and the gateway's data must equal RefExec on the merged schema outside the recorded defect guards.",
+        "note": "Trusted: Coq kernel+vm_compute, the hand model, RefExec as the reading of the GraphQL spec, harness/driver. Services assumed spec-conformant; gqlparser validation taken as given. Composition theorem (transparency under guards) not yet proved: the universally quantified part is plan_sub; the rest of the claim rests on the checked correspondence + direct oracle.",
+        "technique": "Coq model + stage theorem (structural induction) + refutation witnesses; differential correspondence model vs real gateway; RefExec oracle",
+    },
+    "C04": {
+        "text": "Theorems C04_only_client_fields (every field of every step at any depth is a client field or helper-aliased plumbing; all schemas, tables, selections) and C04_refuted_shared_remote_abstract (validity against the receiving schema is false on a published federation; known finding). Tie: every downstream document observed from the real gateway is validated with gqlparser against the receiving service's own schema, operation type and keyword are checked, ids are checked duplicate-free, and the multiset of requests must equal the model's.",
+        "note": "valid_doc is my subset of GraphQL validation (field existence, leaf/composite shape, fragment conditions); the simulator's verdict comes from gqlparser itself. Ownership (plan_owned) not yet a theorem.",
+        "technique": "Coq stage theorem + refutation witness; correspondence of request multisets; gqlparser validation at the simulators",
     },
 }
 
